@@ -114,7 +114,7 @@ class Session:
             f = z3.SimpleSolver()
             f.set("mbqi", False)
             f.set("auto_config", False)
-            f.set("timeout", 3000)
+            f.set("timeout", 3000 if expect_refuted else 30000)      # milliseconds normally; the budget only matters when all cores are busy
             f.add(*hyps)
             f.add(z3.Not(goal))
             fr = f.check()
